@@ -7,8 +7,20 @@ package keymaps
 import (
 	"fmt"
 	"regexp"
+	"testing"
+	"testing/synctest"
 
 	"verifharness/core"
+)
+
+// T is set by the test entry; adapters that live in virtual time (Bubble) need it for synctest.
+var T *testing.T
+
+// Adapters that need the verif hooks of /repo live in files built with -tags verif and
+// register themselves here (the rest of the package builds without the tag).
+var (
+	extraCatalogue      []func() []Adapter
+	extraLargeCatalogue []func(chainLen int) []Adapter
 )
 
 // km is one live key map behind a uniform face.
@@ -47,7 +59,9 @@ type Adapter struct {
 	Events   []core.Event
 	// Unbounded: the state space does not close (a counter grows): explored as a bounded prefix
 	Unbounded bool
-	mk        func() *km
+	// Bubble: every replay runs inside a testing/synctest bubble (virtual time)
+	Bubble bool
+	mk     func() *km
 }
 
 func (a Adapter) Name() string { return a.Impl + "/" + a.Variant }
@@ -76,6 +90,15 @@ func (s *KMSystem) Config() map[string]any {
 		"unique": s.A.Unique, "ranged": s.A.Ranged, "inrange": inr, "reusable": reu, "keynames": kn}
 }
 func (s *KMSystem) Events() []core.Event { return s.A.Events }
+
+// Wrap implements core.Wrapper.
+func (s *KMSystem) Wrap(f func()) {
+	if !s.A.Bubble {
+		f()
+		return
+	}
+	synctest.Test(T, func(*testing.T) { f() })
+}
 func (s *KMSystem) New() core.Instance   { return &kmInst{s: s, m: s.A.mk()} }
 
 type kmInst struct {
